@@ -40,7 +40,16 @@ def grammar_specs():
     s = {"name": "STR", "abstract": [["A", None, "ABC"]],
          "prods": [["L", "A", None, [["s", "str"], ["f", "float"]]], ["P", "A", None, [["x", ["ref", "A"]], ["i", "int"]]],
                    ["Q", "A", None, [["xs", ["list", ["ref", "A"]]]]]], "start": "A"}
-    return [two, e, w, s]
+    chain = {"name": "CHAIN", "abstract": [["E", None, "ABC"], ["T", None, "ABC"], ["F", None, "ABC"], ["At", None, "ABC"]],
+             "prods": [["ET", "E", None, [["t", ["ref", "T"]]]], ["Add", "E", None, [["l", ["ref", "E"]], ["r", ["ref", "T"]]]],
+                       ["TF", "T", None, [["f", ["ref", "F"]]]], ["Mul", "T", None, [["l", ["ref", "T"]], ["r", ["ref", "F"]]]],
+                       ["FA", "F", None, [["a", ["ref", "At"]]]], ["Neg", "F", None, [["f", ["ref", "F"]]]],
+                       ["Num", "At", None, [["v", ["ann", "int", ["IntRange", 0, 9]]]]], ["Par", "At", None, [["e", ["ref", "E"]]]]],
+             "start": "E"}
+    chain5 = {"name": "CHAIN5", "abstract": [["E", None, "ABC"], ["T", None, "ABC"]],
+              "prods": [["ET", "E", None, [["t", ["ref", "T"]]]], ["TE", "T", None, [["e", ["ref", "E"]]]],
+                        ["Num", "T", None, [["v", ["ann", "int", ["IntRange", 0, 9]]]]]], "start": "E"}
+    return [two, e, w, s, chain, chain5]
 
 
 def configs(tier, seed):
@@ -55,6 +64,11 @@ def configs(tier, seed):
                     out.append({"g": gi, "rep": rep, "algo": algo, "seed": sd})
         for init in ("grow", "full", "pigrow", "ramped"):
             out.append({"g": gi, "rep": "tree", "algo": "gp", "seed": seeds[0], "init": init})
+        for dec in ("pigrow", "full"):
+            for rep in ("tree", "ge"):
+                out.append({"g": gi, "rep": rep, "algo": "gpx", "seed": seeds[0], "decider": dec})
+        out.append({"g": gi, "rep": "tree", "algo": "gp", "seed": seeds[0], "user_tracker": True})
+        out.append({"g": gi, "rep": "ge", "algo": "hc", "seed": seeds[0], "user_tracker": True})
     return out
 
 
@@ -80,7 +94,8 @@ def run_config(cfg, hash_order=None, want_trace=False):
     try:
         g = b.extract()
         r = NativeRandomSource(cfg["seed"])
-        rep = make_rep(cfg["rep"], g, r, 4, gene_length=24)
+        depth = 8 if spec["name"].startswith("CHAIN") else 4
+        rep = make_rep(cfg["rep"], g, r, depth, gene_length=24, decider=cfg.get("decider", "maxdepth"))
         trace = []
 
         def ff(p):
@@ -91,6 +106,12 @@ def run_config(cfg, hash_order=None, want_trace=False):
         problem = SingleObjectiveProblem(ff)
         budget = EvaluationBudget(cfg.get("budget", 24))
         algo = cfg["algo"]
+        kw = {}
+        if cfg.get("user_tracker"):
+            # a tracker built by the user the short way (no explicit evaluator), as the estimators in geml do
+            from geneticengine.evaluation.tracker import SingleObjectiveProgressTracker
+
+            kw["tracker"] = SingleObjectiveProgressTracker(problem)
         try:
             if algo == "gp" and cfg.get("init"):
                 from geneticengine.representations.tree.operators import (
@@ -99,9 +120,9 @@ def run_config(cfg, hash_order=None, want_trace=False):
 
                 init = {"grow": lambda: GrowInitializer(), "full": lambda: FullInitializer(4),
                         "pigrow": lambda: PositionIndependentGrowInitializer(4), "ramped": lambda: RampedHalfAndHalfInitializer(4)}[cfg["init"]]()
-                alg = GeneticProgramming(problem, budget, rep, random=r, population_size=6, population_initializer=init)
+                alg = GeneticProgramming(problem, budget, rep, random=r, population_size=6, population_initializer=init, **kw)
             elif algo == "gp":
-                alg = GeneticProgramming(problem, budget, rep, random=r, population_size=6)
+                alg = GeneticProgramming(problem, budget, rep, random=r, population_size=6, **kw)
             elif algo == "gpx":
                 from geneticengine.algorithms.gp.operators.combinators import SequenceStep
                 from geneticengine.algorithms.gp.operators.crossover import GenericCrossoverStep
@@ -109,11 +130,11 @@ def run_config(cfg, hash_order=None, want_trace=False):
                 from geneticengine.algorithms.gp.operators.selection import TournamentSelection
 
                 alg = GeneticProgramming(problem, budget, rep, random=r, population_size=6,
-                                         step=SequenceStep(TournamentSelection(3), GenericCrossoverStep(1), GenericMutationStep(1)))
+                                         step=SequenceStep(TournamentSelection(3), GenericCrossoverStep(1), GenericMutationStep(1)), **kw)
             elif algo == "rs":
                 alg = RandomSearch(problem, budget, rep, random=r)
             elif algo == "hc":
-                alg = HC(problem, budget, rep, random=r, number_of_mutations=3)
+                alg = HC(problem, budget, rep, random=r, number_of_mutations=3, **kw)
             else:
                 alg = OnePlusOne(problem, budget, rep, random=r)
             checks = {"n": 0}
@@ -213,7 +234,25 @@ def run_unit(unit):
         names = [a[0] for a in spec["abstract"]] + [p[0] for p in spec["prods"]]
         seen = {}
         orders = set()
-        perms = list(itertools.permutations(range(len(names))))[: unit["max_perms"]]
+        k = len(names)
+        if k <= 5:
+            perms = list(itertools.permutations(range(k)))  # every order (<= 120)
+        else:
+            # too many orders to enumerate: all rotations and reversed rotations, plus the first lexicographic ones
+            base = list(range(k))
+            perms = []
+            for i in range(k):
+                rot = base[i:] + base[:i]
+                perms.append(tuple(rot))
+                perms.append(tuple(reversed(rot)))
+            import random as _random
+
+            rng = _random.Random(20260926)  # a FIXED family of orders (part of the stated alphabet), not a per-run sample
+            for _ in range(40):
+                p = base[:]
+                rng.shuffle(p)
+                perms.append(tuple(p))
+            perms = list(dict.fromkeys(perms))
         for perm in perms:
             ho = {n: 3 + p for n, p in zip(names, perm)}
             h, tr, order = run_config(cfg, hash_order=ho, want_trace=True)
